@@ -57,10 +57,11 @@ PROPS = {
         harnesses=[
             dict(run=B + "VerifC07Compact", quick=dict(ops=2, keys=1, val9=0, delfaults=1), thorough=dict(ops=3, keys=1, val9=0, delfaults=2),
                  covers=["delete-error", "delete-unknown-applied", "compactor-dies", "get-present", "get-absent", "done"]),
+            dict(run=B + "VerifC07Race", quick=dict(preempt=1), thorough=dict(preempt=2), covers=["racing-write-succeeded", "get-present", "get-absent", "done"], stress=20),
         ],
-        bounds=dict(quick="histories of 2 writes on 1 key (multi-version, tombstones, re-created), compaction at every revision R in (base, current], one fault (error / unknown-applied / compactor dies) at any compaction delete, reads at every R' >= R and latest, one further write",
-                    thorough="histories of 3 writes, up to 2 faults"),
-        outside="time-based expiry (C17); concurrent writers during the scan; skipped-prefix configurations (recorded finding, see DESIGN.md)",
+        bounds=dict(quick="histories of 2 writes on 1 key (multi-version, tombstones, re-created), compaction at every revision R in (base, current], one fault (error / unknown-applied / compactor dies) at any compaction delete, reads at every R' >= R and latest, one further write; compaction racing one symbolic write (create / update / delete) on a key with a tombstone, two live versions or a re-created key, interleaved at the store operations, revision dealing and request boundaries with <= 1 scheduling delay",
+                    thorough="histories of 3 writes, up to 2 faults; the race with <= 2 scheduling delays"),
+        outside="time-based expiry (C17); more than one concurrent writer during the scan; skipped-prefix configurations (known from the design round, no check, see DESIGN.md 0.3)",
     ),
     "C08": dict(
         harnesses=[
@@ -174,11 +175,11 @@ PROPS = {
     ),
     "C11": dict(
         harnesses=[
-            dict(run="pkg/zzc11.VerifC11Memkv", quick=dict(entries=2, ops=1), thorough=dict(entries=2, ops=2), covers=["batch-applied", "batch-refused", "get-hit", "iter-several", "iter-descending", "changed-under-iterator", "done"]),
+            dict(run="pkg/zzc11.VerifC11Memkv", quick=dict(entries=2, ops=2), thorough=dict(entries=3, ops=2), covers=["batch-applied", "batch-refused", "get-hit", "iter-several", "iter-descending", "changed-under-iterator", "done"]),
             dict(run="pkg/zzc11.VerifC11MemkvMetrics", quick=dict(entries=1, ops=1), thorough=dict(entries=2, ops=1), covers=["batch-applied", "batch-refused", "done"]),
         ],
-        bounds=dict(quick="in-memory adapter and metrics wrapper only: 2 initial entries with symbolic keys of 1..2 bytes over {a,b,c} and symbolic values; then one batch of 1 operation (put-if-absent / CAS / put / delete with symbolic key, value, expected value), or one Get, one Del, one compare-and-delete (entry optionally changed under the iterator), or one iteration with symbolic bounds in either direction and limit 0..2 — differential against the contract store",
-                    thorough="batches of up to 2 operations (several conditions, a condition on a key written or deleted earlier in the batch)"),
+        bounds=dict(quick="in-memory adapter and metrics wrapper only: 2 initial entries with symbolic keys of 1..2 bytes over {a,b,c} and symbolic values; then one batch of 1..2 operations (put-if-absent / CAS / put / delete with symbolic key, value, expected value; several conditions, a condition on a key written or deleted earlier in the batch), or one Get, one Del, one compare-and-delete (entry optionally changed under the iterator), or one iteration with symbolic bounds in either direction and limit 0..2 — differential against the contract store",
+                    thorough="3 initial entries"),
         outside="the Badger and TiKV adapters (their engine models were not built: see DESIGN.md 'not covered'); TTL expiry inside engines; keys longer than 2 bytes",
         assumptions=["github.com/huandu/skiplist is replaced by a sorted-sequence model; every counterexample is replayed on the real skiplist"],
     ),
